@@ -76,6 +76,10 @@ func c07Run(x *core.Ctx) {
 				fsrc := rn.RenderSDoc(&model.SDoc{Items: out})
 				fc := core.NewCase("schema", "src", fsrc, "expect", "reject:"+f.Code, "involved", strings.Join(involved, ","))
 				split(fc, out)
+				if f.Code == "dup-type" && fc.Get("nsrc") != "" && r.Bool() {
+					// the first source is flagged built-in (as plugins do): names must still be unique across sources
+					fc.Set("builtin-first", "1")
+				}
 				x.Do(fc, func() { c07Check(x, fc) })
 			}
 		}
@@ -117,7 +121,7 @@ func codesOf(vs []tsys.Violation) string {
 func c07Check(x *core.Ctx, c *core.Case) {
 	src := c.Get("src")
 	expect := c.Get("expect")
-	sources := []*ast.Source{{Name: "schema.graphql", Input: src}}
+	sources := []*ast.Source{{Name: "schema.graphql", Input: src, BuiltIn: c.Get("builtin-first") != ""}}
 	if c.Get("nsrc") != "" {
 		var n int
 		fmt.Sscan(c.Get("nsrc"), &n)
@@ -130,10 +134,13 @@ func c07Check(x *core.Ctx, c *core.Case) {
 	source := &ast.Source{Name: "all.graphql", Input: src}
 	sd, perr := parser.ParseSchema(source)
 	if perr != nil {
-		if expect != "random" {
-			x.HarnessBug("generated schema does not parse: " + perr.Error() + "\n" + src)
-		} else {
+		if expect == "random" {
 			x.Count("random_unparsable")
+		} else if grammarAccepts(ref.TypeSystemGrammar, src) {
+			// the text is derivable from the type-system grammar: the parser is at fault, not the generator
+			x.Violate("rejected-but-valid(parse:"+firstWords(templateOf(perr.Error()), 4)+")", perr.Error()+"\n"+src, "parses: derivable from the type-system grammar")
+		} else {
+			x.HarnessBug("generated schema does not parse: " + perr.Error() + "\n" + src)
 		}
 		return
 	}
@@ -452,5 +459,14 @@ func c07Graph(x *core.Ctx, s *ast.Schema, mg *tsys.Merged) {
 			bad("introspection:__type", "query root lacks __type(name: String!): __Type", "present")
 		}
 	}
-	_ = ref.Lex
+}
+
+// grammarAccepts: the reference lexer and the grammar-as-data recognizer accept the text.
+func grammarAccepts(g *ref.Grammar, src string) bool {
+	rr := ref.Lex(src)
+	if rr.Abstain != "" || rr.Failed {
+		return false
+	}
+	ok, _, _ := g.Recognize(ref.GToksFromLex(rr.Toks))
+	return ok
 }
